@@ -207,6 +207,11 @@ class Machine:
     def _color_matrix_light(self) -> None:
         light = self._get_named_light()
         if light is not None:
+            if not isinstance(light, MatrixLight):
+                logging.warning(
+                    'Light "{}" is not matrix type (Candle, Tube, etc.)'
+                    .format(light.get_name()))
+                return
             matrix = self._reg.matrix
             matrix = self._as_raw_matrix(matrix)
             matrix.find_replace(None, self._reg.default or [0, 0, 0, 0])
